@@ -5,10 +5,10 @@ ROOT = os.path.dirname(os.path.dirname(os.path.abspath(__file__)))
 
 CHECKS = {
  "C01": dict(
-   technique="property-based fuzzing with process isolation: proptest-generated free-mode templates (grammar over every construct and built-in, boundary arguments, mutations, ladders) plus an enumerated built-in x boundary-argument grid, run in worker processes of a debug (opt-level 0, overflow checks) and a release build on 2 MiB and 8 MiB threads; oracle = the worker survives and no panic is caught; parent-side delta-debugging shrinker for crashes",
+   technique="property-based fuzzing with process isolation: proptest-generated free-mode templates (grammar over every construct and built-in, boundary arguments, mutations, ladders) plus an enumerated built-in x boundary-argument grid and an enumerated family of loop accumulators, run in worker processes of a debug (opt-level 0, overflow checks) and a release build on 2 MiB and 8 MiB threads; oracle = the worker survives and no panic is caught; parent-side delta-debugging shrinker for crashes; thorough tier adds a coverage-guided libFuzzer campaign (harness/fuzz, target render_bytes) with the same oracle",
    level="exploration",
-   text="Generated templates, companions and contexts are loaded, rendered and evaluated as expressions in child processes; every returned error is formatted in all forms. A panic (caught in the worker), a native stack overflow, an abort or a failed allocation larger than the worker's whole address-space limit is a violation attributed to the case that was running and shrunk by re-spawning single-case children. An enumerated grid applies every built-in filter/test/function/loop method to 17 subjects with 0-3 boundary arguments and keyword arguments.",
-   note="Three listed findings (deep operator ladders, deeply nested values, block self-recursion) are native stack overflows; they are excluded by construction (ladder length and fuel caps, no self.block() inside blocks) and only their own witnesses are matched. Hangs/oom under the harness limit are counted as inconclusive watchdog hits, not violations.",
+   text="Generated templates, companions and contexts are loaded, rendered and evaluated as expressions in child processes; every returned error is formatted in all forms. A panic (caught in the worker), a native stack overflow, an abort or a failed allocation larger than the worker's whole address-space limit is a violation attributed to the case that was running and shrunk by re-spawning single-case children. An enumerated grid applies every built-in filter/test (static list plus the names registered in the tree under test) and every function/loop method to 20 subjects (incl. strings starting with multi-byte characters) with 0-3 boundary arguments and keyword arguments; 15 step expressions grow a namespace attribute over 6 000-120 000 loop steps and 8 consumers use it. Thorough: libFuzzer, 16 processes x VERIF_FUZZ_SECONDS (default 900 s), inputs up to 4 KiB split into main source and companions, crash artifacts re-run alone and saved as replay files.",
+   note="Four listed findings (deep operator ladders, deeply nested values, lazy slice chains, block self-recursion) are native stack overflows; they are excluded by construction (ladder length and fuel caps, no self.block() inside blocks, no re-slicing accumulator) and only their own witnesses are matched. Hangs/oom under the harness limit are counted as inconclusive watchdog hits, not violations.",
    design="3/C01"),
  "C02": dict(
    technique="property-based testing with taint markers: generated html/xml programs of the safe-marking-free fragment over tainted context data and literals, validity oracle on the output (no raw < > \" '), plus a metamorphic round trip (unescape(.html rendering) == .txt rendering) on a fragment where captured values are not transformed",
@@ -61,7 +61,7 @@ CHECKS = {
  "C10": dict(
    technique="model-based property testing (whitespace rules as worded vs engine, enumerated for short sequences and generated beyond) plus metamorphic testing (same program under 12 delimiter sets, line statements vs whole-line block tags)",
    level="exploration",
-   text="(a) Sequences of text and variable/block/comment/raw tags with every marker on either side are rendered under the 8 whitespace settings and compared with an independent model of the documented rules; all sequences of length <= 2 and all text-tag-text / tag-text-tag triples over a 37-symbol alphabet are enumerated. (b) Generated single-file programs whose text consists of partial and look-alike delimiters must render identically (or fail alike) with default delimiters and with each of 12 delimiter sets incl. prefix-sharing and nested-prefix ones. (c) Default-looking delimiters are verbatim text under a custom syntax; line statements/comments behave like whole-line tags.",
+   text="(a) Sequences of text and variable/block/comment/raw tags with every marker on either side are rendered under the 8 whitespace settings and compared with an independent model of the documented rules, with default delimiters and re-spelled under two custom delimiter sets (one prefix-sharing); all sequences of length <= 2 and all text-tag-text / tag-text-tag triples over a 37-symbol alphabet are enumerated. (b) Generated single-file programs whose text consists of partial and look-alike delimiters must render identically (or fail alike) with default delimiters and with each of 12 delimiter sets incl. prefix-sharing and nested-prefix ones. (c) Default-looking delimiters are verbatim text under a custom syntax; line statements/comments behave like whole-line tags.",
    note="A lone CR next to a tag is outside the model (undocumented whether it is a line boundary). (b) compares the engine with itself under two printings of the same AST; the core-fragment reference interpreter is used by C03, not here.",
    design="3/C10"),
  "C11": dict(
@@ -73,7 +73,7 @@ CHECKS = {
  "C12": dict(
    technique="property-based testing: metamorphic relation over four configurations (Strict/SemiStrict/Lenient/Chainable renders of the same generated program), plus complete enumeration of the documented site x mode matrix",
    level="exploration",
-   text="Generated programs (free-mode and a mostly-well-typed generator that plants undefined operands in every operand position) are rendered under the four undefined behaviours with a recording context; success under a stricter mode must imply success with byte-identical output under every weaker mode. The documented matrix (print / iterate / truth test / attribute-or-item access / is defined / is undefined / default) is enumerated over 35 syntactic sites x 4 kinds of undefined operand x 4 modes.",
+   text="Generated programs (free-mode and a mostly-well-typed generator that plants undefined operands in every operand position) are rendered under the four undefined behaviours with a recording context; success under a stricter mode must imply success with byte-identical output under every weaker mode. The documented matrix (print / iterate / truth test / attribute-or-item access / is defined / is undefined / default) is enumerated over 37 syntactic sites x 4 kinds of undefined operand x 4 modes.",
    note="The matrix rows are language sites; individual filters are only covered by the monotonicity relation (their strict-mode behaviour differs between filters and is not documented). debug() is excluded.",
    design="3/C12"),
  "C13": dict(
@@ -121,7 +121,7 @@ CHECKS = {
  "C20": dict(
    technique="schedule enumeration as property-based testing: every placement of up to 3 reload requests at the lock-granularity yield points of up to 3 acquire_env calls (through feature-guarded hooks) x option combinations, history invariant over a logical clock; proptest for longer schedules; real-thread stress as smoke test",
    level="exploration",
-   text="All schedules of up to 3 acquires and up to 3 requests (placed before the acquire, after the cache lock, between check and flag reset, between reset and creator, inside the creator, after the rebuild, before return) x fast reload x freshness callback x failing creator are executed against the real AutoReloader; for every request that returned at logical time t the first successful acquire started after t must return an environment whose creator started (or whose cache was cleared) after t; the environment must not change under a held guard; no rebuild without a request.",
+   text="All schedules of up to 3 acquires and up to 3 requests (placed before the acquire, after the cache lock, between check and flag reset, between reset and creator, inside the creator, after the rebuild, before return, under the held guard) x fast reload x freshness callback x failing creator are executed against the real AutoReloader; for every request that returned at logical time t the first successful acquire started after t must return an environment whose creator started (or whose cache was cleared) after t; the environment must not change under a held guard; no rebuild without a request.",
    note="Interleavings are produced deterministically on one thread through the yield-point callback (the notifier lock is not held at those points); preemption inside a critical section is not modelled. The thread stress part only samples.",
    design="3/C20"),
 }
